@@ -2,6 +2,7 @@ package main
 
 import (
 	"os"
+	"path/filepath"
 
 	"gosx/sym"
 )
@@ -27,6 +28,7 @@ var props = []PropSpec{
 		Harnesses: []HarnessSpec{
 			{Func: "Check_Arith", Reach: []string{"big", "small"}},
 			{Func: "Check_StdModels", Reach: []string{"models"}},
+			{Func: "Check_UTF8", Reach: []string{"multi-byte", "ascii-or-not"}},
 		},
 	},
 	{
@@ -56,8 +58,10 @@ var props = []PropSpec{
 		Harnesses: []HarnessSpec{
 			{Func: "Check_SeqStepFixedClock", Reach: []string{"data", "template", "refresh"}, Vectors: 2,
 				Bounds: "the same steps with a concrete clock standing 600 ms into a second (rounding vs truncation of the export time)"},
-			{Func: "Check_SeqStep", Reach: []string{"data", "template", "near-wrap", "empty-set", "refresh"}, Tune: func(c *sym.Config, th bool) { c.ClockMode = "wall" },
-				Bounds: "1..2 (quick) / 1..3 (thorough) successive sends after a template, each a template set (with one or zero records) or a data set with 0..3 records; counter, observation domain, values and clock symbolic"},
+			{Func: "Check_ConfiguredDomain", NoNative: true, Reach: []string{"configured-domain"},
+				Bounds: "the real InitExportingProcess over tcp and udp with net.Dial returning an in-memory connection (background goroutines started, their tickers never fire); any 32-bit configured observation domain; one template and one data message of 1..2 records"},
+			{Func: "Check_SeqStep", Reach: []string{"data", "template", "near-wrap", "empty-set", "refresh", "partial-write-refused"}, Tune: func(c *sym.Config, th bool) { c.ClockMode = "wall" },
+				Bounds: "1..2 (quick) / 1..3 (thorough) successive sends after a template, each a template set (with one or zero records) or a data set with 0..3 records; counter, observation domain, values and clock symbolic; on each send the connection may accept 5 bytes fewer than offered without an error (the send is then a failed attempt, or - if it reports success - its count and bytes are checked)"},
 		},
 	},
 	{
@@ -69,7 +73,7 @@ var props = []PropSpec{
 			{Func: "Check_SizeLimit", Reach: []string{"fits", "oversized"}, Bounds: "every message size 65519..65540 (string field of symbolic content)"},
 			{Func: "Check_SizeLimitSymbolic", Reach: []string{"fits", "oversized"}, Bounds: "set length symbolic in [65400,65600]"},
 			{Func: "Check_UndefinedSetType", Reach: []string{"refused"}, Bounds: "reset set, with and without prior PrepareSet"},
-			{Func: "Check_Fidelity", Reach: []string{"refused-at-send", "transmitted-faithfully"}, Bounds: "IPv4 element with address of 0,3,4,5,16 bytes; IPv6 element with 0,3,4,15,16,17 bytes; MAC of 0..8 bytes; fixed 5-byte octet array of 0..7 bytes; all bytes symbolic"},
+			{Func: "Check_Fidelity", Reach: []string{"refused-at-send", "transmitted-faithfully", "retried"}, Bounds: "IPv4 element with address of 0,3,4,5,16 bytes; IPv6 element with 0,3,4,15,16,17 bytes; MAC of 0..8 bytes; fixed 5-byte octet array of 0..7 bytes; all bytes symbolic; x the application {just sends, reads the record buffer and set length first, retries the same set once after a refusal}"},
 		},
 	},
 	{
@@ -102,13 +106,13 @@ var props = []PropSpec{
 		ID: "C01", Pkg: "./c01", ReplayPkg: "./cmd/rc01", Level: "model_checking",
 		Assumptions: append([]string{
 			"ASSUMED, not decided: the transport delivers the written bytes unchanged (UDP/DTLS: one Write = one datagram; TCP/TLS: a byte stream, segmentation is C11). Kernel sockets, TLS/DTLS record layers and the IPv4/IPv6 listener dimension cannot be encoded and are not part of the verdict",
-			"what is decided is the codec composition: bytes written by the real ExportingProcess.SendSet, presented to the real CollectingProcess.decodePacket",
+			"what is decided is the codec composition: bytes written by the real ExportingProcess.SendSet, presented to the real CollectingProcess.decodePacket, and (Check_MaxMessage) to the real TCP connection handler as an in-memory byte stream",
 		}, codecAssumptions...),
 		Harnesses: []HarnessSpec{
 			{Func: "Check_EndToEnd", Reach: []string{"delivered"},
 				Bounds: "templates of 1..2 fields over 22 kinds (quick); thorough: 1..2 over 22 kinds and triples over a pool of 10; 1..2 / 1..3 records; variable lengths {0,255} / {0,1,254,255,256}; all values, template id, observation domain symbolic; exporter address 1.2.3.4:5 and [::1]:5"},
-			{Func: "Check_MaxMessage", Reach: []string{"delivered", "max-size"},
-				Bounds: "single string / octet-array field of 254,255,256,65000,65511,65512 bytes (65512 makes the message exactly 65535 bytes), symbolic content"},
+			{Func: "Check_MaxMessage", Reach: []string{"delivered", "max-size", "over-tcp"},
+				Bounds: "single string / octet-array field of 254,255,256,4073,4074,5000,65000,65511,65512 bytes (65512 makes the message exactly 65535 bytes; 4074 makes it cross the 4096-byte default buffer of bufio), symbolic content; presented to decodePacket as datagrams, or as one TCP stream (template, data, template) to the real handleTCPClient on an in-memory connection"},
 		},
 	},
 	{
@@ -118,8 +122,16 @@ var props = []PropSpec{
 			"UDP flavour runs with a clock on which no time passes (template lifetime is C10)",
 		}, codecAssumptions...),
 		Harnesses: []HarnessSpec{
-			{Func: "Check_History", Reach: []string{"bad-template", "data-rejected", "data-decoded-A", "data-decoded-B", "data-decoded-C", "data-decoded-S", "final"},
-				Bounds: "histories of k = 3 (quick) / 4 (thorough) messages, each one of {template A, template B (same record size, different shape), bad template (cut short after id / unknown element in strict mode), data}; the (observation domain, template id) of every message is symbolic, so all aliasing patterns are explored by the solver; tcp and udp flavours"},
+			{Func: "Check_History", Reach: []string{"bad-template", "data-rejected", "data-decoded-A", "data-decoded-B", "data-decoded-C", "data-decoded-S", "final", "zero-field-template"},
+				Tune: func(c *sym.Config, th bool) {
+					// decoding a bounded packet terminates quickly: a path that exhausts this budget is a decoder that hangs
+					c.HangIsViolation = true
+					c.InstrBudget = 3_000_000
+				},
+				Bounds: "histories of k = 3 (quick) / 4 (thorough) messages, each one of {template A, template B (same record size, different shape), bad template (cut short after id / unknown element in strict mode), data}; the (observation domain, template id) of every message is symbolic, so all aliasing patterns are explored by the solver; tcp and udp flavours; at most once per history a template record with field count 0 (for the key, or with record id 2)"},
+			{Func: "Check_HistoryAfterUse", Reach: []string{"data-decoded-A", "data-decoded-B", "data-rejected", "final"},
+				Tune:   func(c *sym.Config, th bool) { c.HangIsViolation = true; c.InstrBudget = 3_000_000 },
+				Bounds: "histories that start with a template and a data set (keys symbolic: same key or not), followed by every sequence of 2 (quick) / 3 (thorough) further messages (total depth 4 / 5)"},
 		},
 	},
 	{
@@ -128,16 +140,18 @@ var props = []PropSpec{
 		Harnesses: []HarnessSpec{
 			{Func: "Check_Sequences", Reach: []string{"reset", "done", "prepared-again"},
 				Bounds: "prefix {none, template set + add, data set + add} then ResetSet, then PrepareSet(type, symbolic id) and 1..2 adds through any of the three add paths (extra elements {0,2} quick / 0..3 thorough) with element lists from a menu of 6 (0..3 elements; fixed 1/2/4/8, MAC, IPv4, string, variable octets; IANA, reverse, Antrea), UpdateLenInHeader at any point; every operation mirrored on a fresh NewSet; string lengths {0,255} quick / {0,1,254,255} thorough"},
+			{Func: "Check_OddAdds", Reach: []string{"refused-add", "ill-typed-add", "odd-done"},
+				Bounds: "new or reused set x template or data x an add that goes wrong (template set: record with a valued element first or second, through the two copying paths; data set: record with a 5-byte MAC address or a 16-byte value in an IPv4 element) x one regular add through each of the 3 paths; refused adds must leave the set unchanged, accepted ones keep the length bookkeeping consistent"},
 			{Func: "Check_AddPaths", Reach: []string{"compared"},
-				Bounds: "1..2 records; first record 0..2 (quick) / 0..3 (thorough) elements, all combinations over a pool of 10 kinds; extra capacity {0,1,3}; template and data sets"},
+				Bounds: "1..2 records; first record 0..2 (quick) / 0..3 (thorough) elements, all combinations over a pool of 10 kinds; extra capacity {0,1,3}; template and data sets; the caller keeps its element slices untouched or overwrites them right after the two copying adds"},
 		},
 	},
 	{
 		ID: "C17", Pkg: "./c17", ReplayPkg: "./cmd/rc17", Level: "model_checking",
 		Assumptions: append([]string{"wire bytes are produced by the reference encoder from symbolic values; the same bytes are presented to three collectors (strict, keep, drop) and, reduced to the known fields, to a fourth"}, codecAssumptions...),
 		Harnesses: []HarnessSpec{
-			{Func: "Check_Modes", Reach: []string{"strict-rejects", "all-known", "keep-checked", "drop-checked", "reduced-checked", "older-template"},
-				Bounds: "templates of 1..2 (quick) / 1..3 (thorough) positions, each a known element (6 kinds) or an unknown one (IANA id 999, enterprise 9999, Antrea id 9999) of fixed length 1,2,5 or variable length (payload 0,3,255 bytes); 1 / 1..2 records; all values symbolic; optionally an older known-only template for the same id installed first in every mode"},
+			{Func: "Check_Modes", Reach: []string{"strict-rejects", "all-known", "keep-checked", "drop-checked", "reduced-checked", "older-template", "older-template-same-ids-other-lengths"},
+				Bounds: "templates of 1..2 (quick) / 1..3 (thorough) positions, each a known element (6 kinds) or an unknown one (IANA id 999, enterprise 9999, Antrea id 9999) of fixed length 1,2,5 or variable length (payload 0,3,255 bytes); 1 / 1..2 records; all values symbolic; optionally an older template for the same id installed first in every mode: a known-only one, or (lenient modes) one with the same specifiers whose unknown elements were announced with other lengths"},
 			{Func: "Check_KeepOverTCP", Reach: []string{"tcp-checked"}, Bounds: "keep and drop mode through handleTCPClient: template + two data messages with a known and an unknown (fixed 4 / variable) field on one connection; symbolic values"},
 		},
 	},
@@ -165,6 +179,8 @@ var props = []PropSpec{
 			"inductive step: the pre-state is produced by the real operations (create, Update + heap.Fix via the VerifSetDeadlines hook) with symbolic deadlines, readiness and retry counts, so every valid (map, heap) arrangement of up to N flows arises",
 		}, codecAssumptions...),
 		Harnesses: []HarnessSpec{
+			{Func: "Check_RecordOnWaitingFlow", Reach: []string{"same-node-record", "correlating-record"}, Tune: func(c *sym.Config, th bool) { c.ClockMode = "frozen" },
+				Bounds: "one inter-node flow waiting for correlation, created by either node, arbitrary deadlines (T0 + k*2^30 ns, |k| <= 400), then one more record from the same or from the other node"},
 			{Func: "Check_Step", Reach: []string{"record", "scan", "callback-failed", "inactive-expiry-removes", "active-expiry-keeps", "not-ready", "expiry", "expiry-empty"},
 				Tune:   func(c *sym.Config, th bool) { c.ClockMode = "frozen" },
 				Bounds: "0..2 (quick) / 0..3 (thorough) flows with symbolic active/inactive deadlines, readiness and retry count; one step: record for an existing or new key, expiry scan with the callback failing on any subset of keys, or GetExpiryFromExpirePriorityQueue"},
@@ -201,6 +217,9 @@ var props = []PropSpec{
 			{Func: "Check_ScheduleAfterLifetime", Reach: []string{"refresh", "expired", "fired", "callback-found-refreshed-template", "done"},
 				Tune:   func(c *sym.Config, th bool) { c.ClockMode = "frozen" },
 				Bounds: "schedules that start with a template for the first key and an arbitrary advance, followed by all sequences of 4 (quick) / 5 (thorough) further events (total depth 6 / 7)"},
+			{Func: "Check_ScheduleDTLS", Reach: []string{"expired", "fired", "done"},
+				Tune:   func(c *sym.Config, th bool) { c.ClockMode = "frozen" },
+				Bounds: "the collector configured for UDP with DTLS (IsEncrypted): schedules on one key that start with a template and an arbitrary advance, then all sequences of 3 (quick) / 4 (thorough) further events"},
 		},
 	},
 	{
@@ -213,8 +232,8 @@ var props = []PropSpec{
 			"the statement asks client-certificate verification of the TLS collector only; the DTLS collector's configuration is checked for certificates and absence of PSK",
 		},
 		Harnesses: []HarnessSpec{
-			{Func: "Check_Exporter", NoNative: true, Reach: []string{"plaintext", "configuration-error", "tls", "dtls"},
-				Bounds: "protocol {tcp, udp} x TLS settings {absent, present} x client certificate {absent, present} x CA parses {yes, no} x key pair parses {yes, no} x ServerName {empty, 6 symbolic bytes}"},
+			{Func: "Check_Exporter", NoNative: true, Reach: []string{"plaintext", "configuration-error", "tls", "dtls", "ca-rotated"},
+				Bounds: "protocol {tcp, udp} x TLS settings {absent, present} x client certificate {absent, present} x CA parses {yes, no} x key pair parses {yes, no} x ServerName {empty, 6 symbolic bytes}; after a successful encrypted initialisation the CA in the same settings object is replaced and the process initialised a second time"},
 			{Func: "Check_Collector", NoNative: true, Reach: []string{"plaintext", "configuration-error", "tls", "tls-client-auth", "dtls"},
 				Bounds: "protocol {tcp, udp} x isEncrypted x client CA {absent, present} x PEM / key pair parsing outcomes"},
 		},
@@ -236,11 +255,18 @@ var props = []PropSpec{
 		Assumptions: append([]string{
 			"handleTCPClient runs its reader goroutine under the engine's cooperative, deterministic run-to-block scheduler; schedules are NOT enumerated (the reader goroutine and the select in the handler synchronise only through doneCh and the message channel)",
 			"the connection is an in-memory net.Conn that returns the stream in segments: every Read returns the bytes up to the next cut point (1..len(p) bytes), then io.EOF",
-			"delays between segments are not modelled (the code has no timeouts on the read path)",
+			"delays between segments: the code has no timeouts on the read path; if a read deadline has been set on the connection, a Read at a segment boundary may fail once with a net.Error whose Timeout() is true before the segment arrives",
 		}, codecAssumptions...),
 		Harnesses: []HarnessSpec{
 			{Func: "Check_Segmentation", Reach: []string{"all-delivered", "closed-after-undecodable-message", "live-other-connection"},
-				Bounds: "stream = template message + 2 data messages with symbolic values (+ optionally one undecodable message - bad version, length field shorter than the content, unknown template - at any of the 4 positions); every single cut point (quick), every pair of cut points (thorough) over the whole stream; a second connection afterwards"},
+				Tune: func(c *sym.Config, th bool) {
+					// a reader that spins on a message it cannot consume never returns: a hang is the violation
+					c.HangIsViolation = true
+					c.InstrBudget = 5_000_000
+				},
+				Bounds: "stream = template message + 2 data messages with symbolic values (+ optionally one undecodable message - bad version, length field shorter than the content, length field 0 or 15 i.e. below the header size, unknown template - at any of the 4 positions); every single cut point (quick), every pair of cut points (thorough) over the whole stream; a second connection afterwards; if the code sets a read deadline, the segment after a cut may arrive only after a read timeout (environment choice)"},
+			{Func: "Check_LargeMessage", Reach: []string{"large-delivered"},
+				Bounds: "stream = template, a data message with a string of 4076/4077/4100 (thorough also 8200/65000) bytes - i.e. just below, at and above the 4096-byte bufio default - then 2 small data messages; 9 segmentations around the buffer boundary and the message ends; symbolic values and string ends"},
 		},
 	},
 	{
@@ -250,7 +276,7 @@ var props = []PropSpec{
 			if err != nil {
 				return nil, err
 			}
-			return map[string][]byte{"/repo/cmd/collector/zz_verif_c20.go": b}, nil
+			return map[string][]byte{filepath.Join(repoDir, "cmd/collector/zz_verif_c20.go"): b}, nil
 		},
 		Explanation: "PARTIAL: rendering excluded, HTTP stack bypassed. cmd/collector is package main and cannot be imported, so the harness file is injected into it with go's overlay mechanism (nothing is added to the repository). Decided by symbolic execution of the real addIPFIXMessage, flowRecordHandler and resetRecordHandler: from a store of EVERY length L (quick: L in {0,1,2,3,4094,4095,4096}; thorough: every L in 0..4096) one or two arrivals keep the store at min(L+k, 4096) entries consisting of the most recent ones in arrival order (the step form covers runs that exceed the cap any number of times); a records query returns the last min(count, L) entries in order in both formats for boundary counts and - with strconv.Atoi stubbed to return a SYMBOLIC integer - for every count on small stores; negative / unparsable counts and unknown formats are refused with 400, other methods with 405, reset empties the store. The rendered entry is produced by the host's fmt for CONCRETE field values only, so 'every field appears by name and value' is checked for one concrete record shape, not for all values. json.Marshal is a recorder (the slice handed to it is checked); handlers are called with a fake ResponseWriter. Counterexamples are replayed in the interpreter.",
 		Assumptions: []string{
@@ -261,6 +287,8 @@ var props = []PropSpec{
 			{Func: "Check_Arrival", NoNative: true, Reach: []string{"arrived", "full-window"}, Tune: func(c *sym.Config, th bool) { c.InstrBudget = 50_000_000 }, Bounds: "store length L: quick {0,1,2,3,4094,4095,4096}, thorough every L in 0..4096; 1..2 arrivals"},
 			{Func: "Check_Query", NoNative: true, Reach: []string{"json", "text", "refused"}, Tune: func(c *sym.Config, th bool) { c.InstrBudget = 50_000_000 }, Bounds: "same L; count in {absent,0,1,2,L-1,L,L+1,5000,-1,abc} x format in {absent,json,text,xml}"},
 			{Func: "Check_QuerySymbolic", NoNative: true, Reach: []string{"answered", "refused"}, Bounds: "L in 0..6, count a symbolic 64-bit integer"},
+			{Func: "Check_QueryAfterChange", NoNative: true, Reach: []string{"arrival-at-cap", "reset-and-refill", "second-text", "second-json"},
+				Bounds: "store of 1, 2 or 4096 entries; query {all json, count=1 json, all text}; then an arrival at the cap or a reset followed by as many arrivals (at most 2); then the same query again"},
 			{Func: "Check_Methods", NoNative: true, Reach: []string{"methods", "reset"}, Bounds: "POST/DELETE /records, GET/POST /reset on stores of 0, 3, 4096 entries"},
 		},
 	},
